@@ -13,6 +13,7 @@ FAMILIES = {
     "C09": (["F1", "F5", "F4"], ["F1", "F2", "F4", "F5", "F8", "F9"]),
     "C13": (["F1", "F3", "F6", "F7", "F13"], ALLF),
     "C16": (["F10", "F3", "F4"], ["F10", "F1", "F2", "F3", "F4", "F8"]),
+    "C12": (["FC1", "FC2", "F6"], ["FC1", "FC2", "F6", "F1", "F13"]),
 }
 
 
